@@ -84,12 +84,36 @@ def same(a, b):
 
 def interval_of(expr, decisions, signed=True):
     lo, hi = -INF, INF
+    others = []          # [x, lo, hi] for bounded expressions other than expr itself
     for x, s, l, h in bounds(decisions):
         if s is not None and s != signed:
             continue
         if same(x, expr):
             lo = max(lo, l)
             hi = min(hi, h)
+        elif signed and x.w == expr.w and x.w:
+            for o in others:
+                if same(o[0], x):
+                    o[1], o[2] = max(o[1], l), min(o[2], h)
+                    break
+            else:
+                others.append([x, l, h])
+    for x, l, h in others:
+        # expr = x + c (same affine terms): a two-sided bound shifts with it, as long as the shifted interval stays representable
+        # (a one-sided bound does not: x + c may wrap at the unbounded end)
+        if l == -INF or h == INF:
+            continue
+        try:
+            tx, cx = affine(x, x.w)
+            te, ce = affine(expr, expr.w)
+        except Exception:
+            continue
+        if tx and tx == te:
+            c = to_signed((ce - cx) & mask(x.w), x.w)
+            top = 1 << (x.w - 1)
+            if -top <= l + c and h + c < top:
+                lo = max(lo, l + c)
+                hi = min(hi, h + c)
     return lo, hi
 
 
